@@ -2,6 +2,8 @@
 Generators for C04: annotation records whose features have / lack / multiply define the id attributes, and id_spec
 descriptions in every form of the statement.  Cases are plain data (see gvmon/models/C04.py for the spec encoding).
 """
+import copy
+
 from gvmon.models import C04 as MC
 
 GFF_TYPES = ["gene", "mRNA", "exon", "CDS", "ncRNA", "region"]
@@ -28,12 +30,13 @@ def id_value(rng, i):
     return "g%d" % i
 
 
-def records(rng, fmt, n, multi_p):
+def records(rng, fmt, n, multi_p, offset=0):
+    """offset: number the lines offset..offset+n-1 (ids and coordinates of a later batch differ from an earlier one)."""
     gtf = fmt == "gtf"
     pool = rng.sample(GTF_TYPES if gtf else GFF_TYPES, rng.randrange(1, 5))
     recs = []
     ids = []
-    for i in range(n):
+    for i in range(offset, offset + n):
         ft = rng.choice(pool)
         s = 100 * (i + 1) + rng.randrange(0, 50)
         rec = {
@@ -196,3 +199,158 @@ def gen_case(rng):
         "db": "file" if (path != "create" or rng.random() < 0.3) else "memory",
         "input": rng.choice(["string", "path"]), "reopen": rng.random() < 0.5,
     }
+
+
+# ---------------------------------------------------------------------------------------------------------------
+# GTF with id_spec None and non-default gtf_transcript_key / gtf_gene_key: the default id_spec of the format applies
+# ('gene' -> gene_id, 'transcript' -> transcript_id), whatever the two keys are.
+CUSTOM_KEYS = [("tx", "gn"), ("transcript_id", "geneID"), ("Parent_tx", "locus"), ("tx_id", "gene_id"), ("transcript", "gene")]
+
+
+def gen_keys_case(rng):
+    tkey, gkey = rng.choice(CUSTOM_KEYS)
+    n = rng.choice(NS)
+    multi_p = rng.choice([0.0, 0.0, 0.05])
+    recs = records(rng, "gtf", n, multi_p)
+    if rng.random() < 0.7 and n >= 2:
+        # make sure gene / transcript lines occur: they are the lines whose key comes from an attribute
+        for rec in rng.sample(recs, rng.randrange(1, min(n, 4) + 1)):
+            ft = rng.choice(["gene", "transcript"])
+            i = recs.index(rec)
+            rec["featuretype"] = ft
+            keep = [a for a in rec["attrs"] if a[0] not in ("gene_id", "transcript_id")]
+            lead = []
+            if ft == "gene":
+                if rng.random() < 0.7:
+                    lead.append(["gene_id", multi(rng, "G%d" % (10 + i), multi_p)])
+            else:
+                lead.append(["gene_id", ["G%d" % rng.randrange(1, 3)]])
+                if rng.random() < 0.7:
+                    lead.append(["transcript_id", multi(rng, "Tx%d" % (10 + i), multi_p)])
+            rec["attrs"] = lead + keep
+            if not any(v for _, v in rec["attrs"]):
+                rec["attrs"].insert(0, ["Note", ["only%d" % i]])
+            while rec["attrs"][0][1] == []:
+                rec["attrs"].append(rec["attrs"].pop(0))
+    for i, rec in enumerate(recs):
+        ft = rec["featuretype"]
+        have = {k for k, _ in rec["attrs"]}
+        add = []
+        # the values under the custom keys differ from those under gene_id / transcript_id
+        if gkey not in have and rng.random() < 0.75:
+            add.append([gkey, ["cg%d" % (i if ft == "gene" else i % 2)]])
+        if tkey not in have and ft != "gene" and rng.random() < 0.75:
+            add.append([tkey, ["ct%d" % (i if ft == "transcript" else i % 3)]])
+        for a in add:
+            rec["attrs"].insert(rng.randrange(0, len(rec["attrs"]) + 1), a)
+    clean = all(r["featuretype"] not in ("gene", "transcript") for r in recs)
+    infer = clean and rng.random() < 0.4
+    path = "create+update" if (n >= 2 and not infer and rng.random() < 0.25) else "create"
+    if path == "create":
+        batches = [recs]
+    else:
+        cut = rng.randrange(1, n)
+        batches = [recs[:cut], recs[cut:]]
+    return {
+        "kind": "import", "fmt": "gtf", "form": "none", "spec": {"form": "none"}, "batches": batches, "infer": infer,
+        "keys": [tkey, gkey],
+        "db": "file" if (path != "create" or rng.random() < 0.3) else "memory",
+        "input": rng.choice(["string", "path"]), "reopen": rng.random() < 0.5,
+    }
+
+
+# ---------------------------------------------------------------------------------------------------------------
+# keys that are easily confused by a look-up that is not an exact string match
+FAMILIES = {
+    "case": ["abc1", "ABC1", "Abc1", "aBC1", "abC1", "AbC1"],
+    "blank": ["k1", " k1", "k1 ", " k1 ", "k 1", "k  1"],
+    "numeric": ["1", "01", "1.0", "1e3", "1000", "001", "1.", "+1", "1E3", "0x1", "1000.0"],
+    "like": ["a%c", "a_c", "abc", "a%", "a_", "%", "_", "a%%c", "a\\_c", "a%25c", "a%63"],
+}
+
+
+def gen_confusable_case(rng):
+    fam = rng.choice(sorted(FAMILIES))
+    members = FAMILIES[fam]
+    stored = rng.sample(members, rng.randrange(2, len(members)))
+    fmt = rng.choice(["gff3", "gff3", "gtf"])
+    recs = []
+    if fmt == "gff3":
+        spec = rng.choice([{"form": "none"}, {"form": "str", "v": "ID"}, {"form": "list", "v": ["nokey", "ID", "Name"]},
+                           {"form": "dict", "v": {"gene": "ID", "mRNA": ["ID"]}}, {"form": "callable", "v": "name_attr"}])
+    else:
+        spec = rng.choice([{"form": "none"}, {"form": "dict", "v": {"gene": "gene_id"}}])
+    idattr = "gene_id" if fmt == "gtf" else ("Name" if spec["form"] == "callable" else "ID")
+    for i, k in enumerate(stored):
+        rec = {"seqid": rng.choice(["chr1", "chr2"]), "source": "src", "featuretype": "gene" if fmt == "gtf" else rng.choice(["gene", "mRNA"]),
+               "start": str(100 * (i + 1)), "end": str(100 * (i + 1) + 40 + i), "score": ".", "strand": rng.choice("+-"), "frame": ".",
+               "extra": [], "attrs": [[idattr, [k]], ["Note", ["m%d" % i]]]}
+        if rng.random() < 0.5 and fmt != "gtf":
+            rec["attrs"].reverse()          # gtf: the id leads (format detection looks at the first attribute)
+        recs.append(rec)
+    others = records(rng, fmt, rng.randrange(0, 3), 0.0, offset=40)
+    if spec["form"] == "callable":
+        others = [r for r in others if "Name" in dict((k, 1) for k, _ in r["attrs"])]
+    recs += others
+    rng.shuffle(recs)
+    return {
+        "kind": "import", "fmt": fmt, "form": "confusable", "spec": spec, "batches": [recs], "infer": False,
+        "family": fam, "probe": list(members),
+        "db": "file" if rng.random() < 0.3 else "memory", "input": rng.choice(["string", "path"]), "reopen": rng.random() < 0.5,
+    }
+
+
+# ---------------------------------------------------------------------------------------------------------------
+# stale and foreign Feature handles
+SCRIPTS = [
+    ["delete_top", "update"], ["delete_top", "delete_top", "update"], ["delete_top", "update", "delete_top", "update"],
+    ["replace"], ["delete_mid", "update"], ["replace", "delete_top", "update"], ["delete_first", "update", "replace"],
+    ["update"], ["delete_top", "update", "replace"], ["delete_mid", "delete_top", "update", "update"],
+]
+
+
+def gen_stale_case(rng):
+    fmt = rng.choice(["gff3", "gff3", "gtf"])
+    while True:
+        n = rng.choice([2, 3, 4, 5, 6, 8])
+        base = records(rng, fmt, n, 0.0)
+        if fmt == "gtf" or rng.random() < 0.4:
+            spec = {"form": "none"}
+        else:
+            spec = rng.choice([{"form": "str", "v": "ID"}, {"form": "list", "v": ["ID", "Name"]}, {"form": "callable", "v": "autoincrement_const"},
+                               {"form": "dict", "v": {"gene": "ID", "exon": ["Name", "ID"]}}])
+        r = MC.derive_all(spec, fmt, base)
+        if r["outcome"] == "keys" and len(set(r["keys"])) == n:
+            break
+    ops = []
+    offset = 100
+    for name in rng.choice(SCRIPTS):
+        if name == "update":
+            ops.append({"op": "update", "recs": records(rng, fmt, rng.choice([1, 1, 2, 3]), 0.0, offset=offset)})
+            offset += 10
+        elif name == "replace":
+            cands = [i for i, b in enumerate(r["branches"]) if b.startswith("attribute")]
+            if not cands:
+                continue
+            j = rng.choice(cands)
+            rec = copy.deepcopy(base[j])
+            rec["start"] = str(int(rec["start"]) + 5000)
+            rec["end"] = str(int(rec["end"]) + 5000 + rng.randrange(0, 9))
+            rec["strand"] = {"+": "-", "-": ".", ".": "+"}[rec["strand"]]
+            rec["attrs"].append(["replaced", ["yes"]])
+            ops.append({"op": "replace", "key": r["keys"][j], "rec": rec})
+        else:
+            ops.append({"op": "delete", "which": name.split("_")[1], "as": rng.choice(["id", "feature", "list"])})
+    via = rng.choice(["same", "other"])
+    perm = list(range(n))
+    how = rng.choice(["reverse", "rotate", "shuffle"])
+    if how == "reverse":
+        perm.reverse()
+    elif how == "rotate":
+        k = rng.randrange(1, n)
+        perm = perm[k:] + perm[:k]
+    else:
+        rng.shuffle(perm)
+    foreign = {"perm": perm, "extra": records(rng, fmt, rng.randrange(0, 3), 0.0, offset=500), "extra_first": rng.random() < 0.5}
+    return {"kind": "stale", "fmt": fmt, "spec": spec, "base": base, "ops": ops, "via": via,
+            "db": "file" if via == "other" or rng.random() < 0.3 else "memory", "foreign": foreign}
